@@ -1089,6 +1089,12 @@ _has_traits_trait(has_traits_object *obj, PyObject *args)
         }
 
         daname2 = trait->delegate_attr_name(trait, obj, daname);
+        if (daname2 == NULL) {
+            /* The name could not be built (for example, the class
+               '__prefix__' is not a string). */
+            Py_DECREF(trait);
+            break;
+        }
         Py_DECREF(daname);
         daname = daname2;
         Py_DECREF(trait);
@@ -2080,6 +2086,12 @@ getattr_delegate(trait_object *trait, has_traits_object *obj, PyObject *name)
     }
 
     delegate_attr_name = trait->delegate_attr_name(trait, obj, name);
+    if (delegate_attr_name == NULL) {
+        /* The name could not be built (for example, the class
+           '__prefix__' is not a string). */
+        Py_DECREF(delegate);
+        return NULL;
+    }
     tp = Py_TYPE(delegate);
 
     if (tp->tp_getattro != NULL) {
@@ -2660,6 +2672,12 @@ setattr_delegate(
         }
 
         daname2 = traitd->delegate_attr_name(traitd, owner, daname);
+        if (daname2 == NULL) {
+            /* The name could not be built (for example, the class
+               '__prefix__' is not a string). */
+            result = -1;
+            goto done;
+        }
         Py_DECREF(daname);
         daname = daname2;
         if (((delegate->itrait_dict == NULL)
